@@ -54,3 +54,4 @@ class Recorder:
 
 
 REC = Recorder()
+TWIN_REC = Recorder()  # used by twin programs, so that their executions are not mistaken for real ones
